@@ -127,6 +127,20 @@ type c12Pkt struct {
 	Proto    int
 	SPort    int
 	DPort    int
+
+	// conversions, filled once by (*c12Dom).prep (packets are shared read-only between the workers)
+	ref         *refpol.Packet
+	nfIn, nfOut *nfsim.Packet
+}
+
+// prep fills the cached conversions of the packets.
+func (d *c12Dom) prep(pkts []*c12Pkt) []*c12Pkt {
+	for _, p := range pkts {
+		p.ref = d.refPacket(p)
+		p.nfIn = d.nfPacket(p, "ingress")
+		p.nfOut = d.nfPacket(p, "egress")
+	}
+	return pkts
 }
 
 func (p *c12Pkt) String() string {
@@ -851,17 +865,17 @@ type c12Flow struct {
 	proto        int
 }
 
-func (f *c12Flow) GetSourceIP() net.IP                  { return f.src }
-func (f *c12Flow) GetDestIP() net.IP                    { return f.dst }
-func (f *c12Flow) GetSourcePort() int                   { return f.sport }
-func (f *c12Flow) GetDestPort() int                     { return f.dport }
-func (f *c12Flow) GetProtocol() int                     { return f.proto }
-func (f *c12Flow) GetHttpMethod() *string               { return nil }
-func (f *c12Flow) GetHttpPath() *string                 { return nil }
-func (f *c12Flow) GetSourcePrincipal() *string          { return nil }
-func (f *c12Flow) GetDestPrincipal() *string            { return nil }
-func (f *c12Flow) GetSourceLabels() map[string]string   { return nil }
-func (f *c12Flow) GetDestLabels() map[string]string     { return nil }
+func (f *c12Flow) GetSourceIP() net.IP                { return f.src }
+func (f *c12Flow) GetDestIP() net.IP                  { return f.dst }
+func (f *c12Flow) GetSourcePort() int                 { return f.sport }
+func (f *c12Flow) GetDestPort() int                   { return f.dport }
+func (f *c12Flow) GetProtocol() int                   { return f.proto }
+func (f *c12Flow) GetHttpMethod() *string             { return nil }
+func (f *c12Flow) GetHttpPath() *string               { return nil }
+func (f *c12Flow) GetSourcePrincipal() *string        { return nil }
+func (f *c12Flow) GetDestPrincipal() *string          { return nil }
+func (f *c12Flow) GetSourceLabels() map[string]string { return nil }
+func (f *c12Flow) GetDestLabels() map[string]string   { return nil }
 
 type c12App struct {
 	store *policystore.PolicyStore
